@@ -209,11 +209,11 @@ def c06(tier):
         graph_walks(v, "topics", gpath, modes, ["-maxqos", str(consts["maxqos"])])
     # part 2b: linearizability under concurrency (direction B): goroutines hammer one real store, TLC places the
     # unlogged linearization points
-    ntr = 60 if not thorough else 600
+    ntr = 100 if not thorough else 800
     tmp = tempfile.mkdtemp(prefix="verif-c06-")
     try:
         tf = os.path.join(tmp, "trace.ndjson")
-        p = core.run_harness(["topicslin", "-seed", str(core.seed()), "-traces", str(ntr), "-out", tf], timeout=600)
+        p = core.run_harness(["topicslin", "-seed", str(core.seed()), "-traces", str(ntr), "-goroutines", "6", "-calls", "20", "-out", tf], timeout=600)
         if p.returncode != 0:
             err = p.stderr or ""
             if ("panic:" in err or "fatal error:" in err) and "go-mqtt/topics" in err:
@@ -229,14 +229,15 @@ def c06(tier):
         shutil.rmtree(tmp, ignore_errors=True)
     if text:
         cfg = "SPECIFICATION Spec\nCONSTANTS MixedLevels = {}\nCONSTRAINT HighWater\nPOSTCONDITION Accepted\n"
-        ok, matched, reports, why = validate_trace(v, "TopicsLinTrace", cfg, text, "TopicsLinTrace", "topic store", dfs=True)
+        ok, matched, reports, why = validate_trace(v, "TopicsLinTrace", cfg, text, "TopicsLinTrace", "topic store", dfs=True, highwater=True)
         lines = text.splitlines()
         v.cov["parts"]["linearizability(recorded)"] = {"traces": ntr, "events": len(lines), "accepted": ok}
         v.cov["traces_validated_against_impl"] += ntr
         v.cov["evaluations"] += len(lines)
         if not ok:
             v.mismatch({"what": "a recorded concurrent history of the topic store is not linearizable with respect to the Topics specification (%s)" % why,
-                        "replay": {"seed": core.seed(), "traces": ntr, "first_events": lines[:6]}})
+                        "replay": {"seed": core.seed(), "traces": ntr, "longest_explained_prefix": matched,
+                                   "events_around": lines[max(0, matched - 8):matched + 2]}})
     # part 3: long random histories over a large vocabulary (TLC simulation)
     nsim, depth = (20, 60) if not thorough else (200, 80)   # per worker, 8 workers
     for maxqos in (2, 1):
@@ -670,16 +671,16 @@ def broker_behaviours(v, spec, depth, mode="cover", maxqos=2):
     abstract state graph within depth steps; maximal witnesses are replayed) or all paths of that depth."""
     cfg = BROKER_CFG % dict(spec=spec, depth=depth, maxqos=maxqos, cids="{k1, k2, k3}" if spec == "FormSpec" else "{k1, k2}", emit="Emit" if mode == "cover" else "EmitFull",
                             view="VIEW CoverView" if mode == "cover" else "")
-    r = core.cached_tlc("broker-%s-%s-%d-%d" % (spec, mode, depth, maxqos), "MCBroker", cfg, workers=1, timeout=1500)
+    r, behs = core.cached_tlc_file("broker-%s-%s-%d-%d" % (spec, mode, depth, maxqos), "MCBroker", cfg,
+                                   leaves_key=(lambda x: [s["a"] for s in x]) if mode == "cover" else None, workers=1, timeout=2400)
     v.tlc("%s(%s, depth %d)" % (spec, mode, depth), r)
-    behs = core.behaviours(r.lines)
-    if mode == "cover":
-        behs = core.leaves(behs, key=lambda x: [s["a"] for s in x])
     return behs
 
 
 def broker_replay(v, pid, behs, label, auth="mockSuccess", maxqos=2, own_tags=None):
     own_tags = own_tags or {pid}
+    if len(behs) == 0:
+        raise Infra("%s: the specification produced no behaviours to replay" % label)
     res = core.merge(core.run_sharded(["brokerreplay", "-auth", auth, "-maxqos", str(maxqos)], behs, timeout=2400))
     mine = [m for m in res.get("mismatches", []) if m.get("tag") in own_tags]
     foreign = [m for m in res.get("mismatches", []) if m.get("tag") not in own_tags]
@@ -741,7 +742,7 @@ def q2many(v, tier):
     """many QoS 2 exchanges open at once: TLC -simulate behaviours of Q2ManySpec"""
     thorough = tier == "thorough"
     depth = 140 if not thorough else 220
-    cfg = BROKER_CFG % dict(spec="Q2ManySpec", depth=depth, maxqos=2, emit="EmitMany", view="")
+    cfg = BROKER_CFG % dict(spec="Q2ManySpec", depth=depth, maxqos=2, cids="{k1, k2}", emit="EmitMany", view="")
     r = core.run_tlc("MCBroker", cfg.replace("PROPERTIES StepProps\n", ""), workers=8, timeout=900, simulate=2 if not thorough else 20, depth=depth + 3, tlc_seed=core.seed())
     v.tlc("Q2ManySpec(simulation)", r)
     behs = core.behaviours(r.lines)
@@ -1080,15 +1081,15 @@ PROPERTIES CompleteOnce NotBeforeAck DispatchSound
 def client_behaviours(v, spec, depth, maxreq, mode, dev="FALSE"):
     cfg = CLIENT_CFG % dict(spec=spec, depth=depth, maxreq=maxreq, dev=dev, emit="Emit" if mode == "cover" else "EmitFull",
                             view="VIEW CoverView" if mode == "cover" else "")
-    r = core.cached_tlc("client-%s-%s-%d-%d" % (spec, mode, depth, maxreq), "MCClient", cfg, workers=1, timeout=1500)
+    r, behs = core.cached_tlc_file("client-%s-%s-%d-%d" % (spec, mode, depth, maxreq), "MCClient", cfg,
+                                   leaves_key=(lambda x: [s["a"] for s in x]) if mode == "cover" else None, workers=1, timeout=2400)
     v.tlc("%s(%s, depth %d, %d requests)" % (spec, mode, depth, maxreq), r)
-    behs = core.behaviours(r.lines)
-    if mode == "cover":
-        behs = core.leaves(behs, key=lambda x: [s["a"] for s in x])
     return behs
 
 
 def client_replay(v, pid, behs, label, own, extra=None):
+    if len(behs) == 0:
+        raise Infra("%s: the specification produced no behaviours to replay" % label)
     res = core.merge(core.run_sharded(["clientreplay"] + (extra or []), behs, timeout=2400))
     if res.get("counts", {}).get("infra"):
         raise Infra("client harness: %s" % res.get("notes")[:2])
